@@ -435,7 +435,7 @@ Definition not_bracketed (u : list N) : bool :=
 
 Lemma strip_brackets_plain u : stripped u = true -> not_bracketed u = true -> strip_brackets u = u.
 Proof.
-  intros Hs Hb. unfold strip_brackets. rewrite (strip_stripped u Hs).
+  intros Hs Hb. unfold strip_brackets. cbn [strip_brackets_fuel]. rewrite (strip_stripped u Hs).
   destruct u as [|a [|b u]]; [reflexivity|reflexivity|].
   unfold not_bracketed in Hb. cbn [hd] in Hb. apply negb_true_iff in Hb. rewrite Hb. reflexivity.
 Qed.
